@@ -45,6 +45,17 @@ def payload_cells(rel):
     return tuple(out)
 
 
+def all_nodes(rel):
+    out, stack = [], [rel]
+    while stack:
+        r = stack.pop()
+        out.append(r)
+        for a in ("target", "lhs", "rhs"):
+            if hasattr(r, a):
+                stack.append(getattr(r, a))
+    return out
+
+
 def fingerprint(rel):
     try:
         h = hash(rel)
@@ -67,15 +78,27 @@ def history(rng):
             return
         pool.append(rel)
         progs.append(p)
+    it_only = rng.random() < 0.3      # iteration engines only: the engine executes such trees without a Processor
+    engines = [("it", 0), ("it", 1)] if it_only else mp.ENGINES
     for _ in range(rng.choice([1, 2, 3])):
         counter[0] += 1
-        add(mp.gen_leaf(rng, counter[0], None, rng.choice(mp.ENGINES), special=0.05))
+        add(mp.gen_leaf(rng, counter[0], None, rng.choice(engines), special=0.05, loose=0.0 if it_only else 0.2))
+    if it_only and pool:
+        # views of one leaf that share its payload: a transfer, a sort right above it, a window
+        p0 = progs[0]
+        x = ("xfer", ("it", 1) if p0[2] == ("it", 0) else ("it", 0), p0)
+        add(x)
+        if p0[3]:
+            c = rng.choice(p0[3])
+            add(("un", ("sort", [(("ref", c), rng.random() < 0.5)]), mp.DEFAULT, rng.choice([x, p0])))
+        add(("un", ("slice", 0, 2), mp.DEFAULT, rng.choice([x, p0])))
     if not pool:
         return None
     snap = [fingerprint(r) for r in pool]
     events = []
     for _step in range(rng.choice([3, 5, 8, 12])):
-        kind = rng.choice(["factory", "factory", "factory", "compile", "execute", "diagnose", "rebuild"])
+        kind = rng.choice(["factory", "factory", "execute_direct", "execute_direct", "execute", "rebuild"] if it_only else
+                          ["factory", "factory", "factory", "compile", "execute", "execute_direct", "diagnose", "rebuild"])
         i = rng.randrange(len(pool))
         rel, p = pool[i], progs[i]
         try:
@@ -89,7 +112,7 @@ def history(rng):
                     counter[0] += 1
                     q = ("mat", 50 + counter[0], p)
                 elif r < 0.35:
-                    q = ("xfer", rng.choice(mp.ENGINES), p)
+                    q = ("xfer", rng.choice(engines), p)
                 else:
                     o, _c = gen.gen_op(rng, cur)
                     q = ("un", o, mp.gen_opts(rng, None, 0.4), p)
@@ -107,6 +130,13 @@ def history(rng):
                 events.append(("execute", i))
                 if isinstance(rel.engine, iteration.Engine) and r1 != r2:
                     problems.append(f"executing relation {i} twice gave different rows")
+            elif kind == "execute_direct" and all(isinstance(n.engine, iteration.Engine) for n in all_nodes(rel)):
+                # no Processor: the iteration engine walks transfers between iteration engines itself
+                r1 = [dict(r) for r in rel.engine.execute(rel)]
+                r2 = [dict(r) for r in rel.engine.execute(rel)]
+                events.append(("execute_direct", i))
+                if r1 != r2:
+                    problems.append(f"executing relation {i} twice (iteration engine, no Processor) gave different rows")
             elif kind == "diagnose":
                 dr.Diagnostics.run(rel)
                 events.append(("diagnose", i))
